@@ -67,14 +67,17 @@ func (l Location) GetPositions() ([]int, error) {
 
 // True/false this location is on the reverse strand
 func (l Location) IsReverse() (bool, error) {
-	pos, err := l.GetPositions()
+	_, err := l.GetPositions()
 	if err != nil {
 		return true, err
 	}
-	if pos[0] > pos[len(pos)-1] {
-		return true, nil
+	// the strand is given by the complement() operators around the first span, not by the order of the
+	// first and last position: join(40..60,1..12), a feature across the origin, is on the forward strand
+	first := strings.IndexAny(l.Representation, "0123456789")
+	if first == -1 {
+		return true, locationErr
 	}
-	return false, nil
+	return strings.Count(l.Representation[:first], "complement(")%2 == 1, nil
 }
 
 // // 5'-most position relative to the forward strand
